@@ -19,7 +19,7 @@
 (* Part 2: the same cycles through a real database (tables, infos, views).    *)
 EXTENDS TraceBase, FiniteSets, Integers
 
-CONSTANTS Keys, Vals, MaxChain, DevF7, MaxWrites, MaxReopens, NT
+CONSTANTS Keys, Vals, MaxChain, DevF7, DevStaleStamp, MaxWrites, MaxReopens, NT
 
 VARIABLES l,
     skip,       \* a line of this scenario was rejected: ignore the rest up to the next Reset
